@@ -67,7 +67,6 @@ Definition pcode (p : proof) : N :=
 
 Definition obs_of (o : outcome) : hobs :=
   match o with
-  | OPanic => OErr 9
   | ONsecError => OErr 1
   | OAnswer l => OOk (map (fun x => (pcode (fst x), snd x)) l)
   end.
